@@ -191,3 +191,90 @@ def classify(trace):
     if gc_remove < band_create:
         return 'race:lost-block:backup-relies-on-a-block-listing-older-than-its-band'
     return 'race:lost-block:other'
+
+
+def make_race2(prog, max_preempt):
+    """C07: two backups of different sources racing on one archive (which holds one complete version)."""
+    def mk_():
+        res = {'bad': [], 'samples': []}
+
+        def h(ex):
+            st, ar = A.new_archive(ex)
+            st.flag_attempts = False      # a refused CreateNew is the expected way for the loser to fail
+            s0 = ex.fresh_int('size_0', 1, 1 << 16)
+            h0 = A.put_block(ex, st, Data([(1, 0, s0)]))
+            A.put_head(ex, st, 0)
+            A.put_hunk(ex, st, 0, 0, [A.mk_entry(ex, '/', 'Dir', 1, mode=0o755),
+                                       A.mk_entry(ex, '/a', 'File', 10, addrs=[A.mk_addr(ex, h0, 0, s0)], mode=0o644)])
+            A.put_tail(ex, st, 0, 1)
+            st.mode = 'run'
+            before = st.snapshot()
+            sx, sy = ex.fresh_int('size_x', 1, 1 << 16), ex.fresh_int('size_y', 1, 1 << 16)
+            t1 = B.SourceTreeV([B.SrcFile('/', 'Dir', mtime=B.TimeV(1, 0), mode=0o755),
+                                B.SrcFile('/a', 'File', cls=1, size=s0, mtime=B.TimeV(10, 0), mode=0o644),
+                                B.SrcFile('/x', 'File', cls=5, size=sx, mtime=B.TimeV(11, 0), mode=0o644)])
+            t2 = B.SourceTreeV([B.SrcFile('/', 'Dir', mtime=B.TimeV(1, 0), mode=0o755),
+                                B.SrcFile('/a', 'File', cls=1, size=s0, mtime=B.TimeV(10, 0), mode=0o644),
+                                B.SrcFile('/y', 'File', cls=6, size=sy, mtime=B.TimeV(12, 0), mode=0o644)])
+            B.install_time(ex)
+            B.install_source(ex, {'SRC1': t1, 'SRC2': t2})
+            opts = B.backup_options(ex, 1000, 1 << 20, 0, True)
+            sched = Scheduler(ex, st, ['backup', 'backup2'], max_preempt)
+            st.scheduler = sched
+            backup_fn = ex.find_fn('backup::backup')
+
+            def runner_(src):
+                def f():
+                    r = A.run_async(ex, backup_fn, [Ref([ar], 0), src, Ref([opts], 0), A.monitor_arc(ex)])
+                    if r.variant == 0:
+                        return 'Ok errors=%s' % B.stats_field(ex, r.fields[0], 'errors')
+                    return 'Err:' + variant_name(ex, r.fields[0])
+                return f
+            first = 'backup' if ex.branch(ex.fresh_bool('first_is_1'), 'who starts?') else 'backup2'
+            results = sched.run({'backup': runner_('SRC1'), 'backup2': runner_('SRC2')}, first)
+            problems = []
+            for p, (k, pl) in before.items():
+                n = st.nodes.get(p)
+                if n is None:
+                    problems.append('%s existed before and is gone' % p)
+                elif n.kind == 'file' and n.payload is not pl:
+                    problems.append('%s existed before and was rewritten' % p)
+            for v in st.violations:
+                problems.append('step %d %s %s: %s' % v[:4])
+            bands, blocks = B.decode_bands(ex, st)
+            matched = {}
+            for b, info in sorted(bands.items()):
+                if b == 0 or not info.get('tail'):
+                    continue
+                fits = []
+                for nm, t in (('backup', t1), ('backup2', t2)):
+                    pr = []
+                    B.check_complete_band(ex, st, b, t, pr, 'race', True)
+                    B.check_inv(ex, st, {b: {f.path: f for f in t.files}}, pr, 'race')
+                    if not [x for x in pr if ('b%04d' % b) in x]:
+                        fits.append(nm)
+                if not fits:
+                    problems.append('complete version b%04d is neither source tree (entries of both runs, or content of the wrong one)' % b)
+                for nm in fits:
+                    matched.setdefault(nm, []).append(b)
+            for nm in ('backup', 'backup2'):
+                if results.get(nm) == 'Ok errors=0' and not matched.get(nm):
+                    problems.append('%s returned Ok without errors but no complete version holds its tree' % nm)
+            return problems, results, sched.trace, first
+
+        def on_path(ex, out):
+            if out[0] == 'panic':
+                res['bad'].append({'kind': 'panic', 'msg': str(out[1])[:200], 'where': out[1].where})
+                return
+            if out[0] != 'ok':
+                return
+            problems, results, trace, first = out[1]
+            if problems:
+                key = 'race2:' + problems[0].split(' ')[0] + ':' + '-'.join(sorted(set(results.values())))[:40]
+                if key not in [b.get('key') for b in res['bad']]:
+                    res['bad'].append({'kind': 'two-backups', 'key': key, 'problems': problems[:3], 'results': results, 'first': first,
+                                       'schedule': [(a, v, p) for a, v, p in trace], 'model': B.model_values(ex.E.check()[1])})
+            elif len(res['samples']) < 2 and len({a for a, v, p in trace[:12]}) == 2:
+                res['samples'].append({'results': results, 'schedule': [(a, v, p[-24:]) for a, v, p in trace][:24]})
+        return h, on_path, res
+    return mk_
